@@ -36,3 +36,38 @@ pub fn pool_key(kind: Kind, idx: usize) -> Option<(&'static str, bool)> {
         Kind::Local => None,
     }
 }
+
+/// Argon2id outputs for parallelism > 1 (and a few p = 1 rows that validate the table against
+/// libsodium at start-up), computed once with `openssl kdf ARGON2ID`: libsodium, the reference's
+/// provider for k2/k4, cannot compute lanes != 1.
+pub const ARGON2ID_LANES_JSON: &str = include_str!("../../fixtures/argon2id_lanes.json");
+
+#[derive(Clone, Debug)]
+pub struct ArgonRow {
+    pub password: Vec<u8>,
+    pub salt: Vec<u8>,
+    pub mem: u64,
+    pub time: u32,
+    pub para: u32,
+    pub key: Vec<u8>,
+}
+
+pub fn argon_rows() -> Vec<ArgonRow> {
+    let v: serde_json::Value = serde_json::from_str(ARGON2ID_LANES_JSON).unwrap_or_default();
+    v.as_array()
+        .map(|a| {
+            a.iter()
+                .filter_map(|r| {
+                    Some(ArgonRow {
+                        password: hex::decode(r["password"].as_str()?).ok()?,
+                        salt: hex::decode(r["salt"].as_str()?).ok()?,
+                        mem: r["mem"].as_u64()?,
+                        time: r["time"].as_u64()? as u32,
+                        para: r["para"].as_u64()? as u32,
+                        key: hex::decode(r["key"].as_str()?).ok()?,
+                    })
+                })
+                .collect()
+        })
+        .unwrap_or_default()
+}
